@@ -607,3 +607,9 @@ MUTATIONS += [
     dict(id="C01-dump-blob-written-twice", prop="C01", file=DMPF, old="        write_blob(w, &data)?;\n    }\n    Ok(())", new="        write_blob(w, &data)?;\n        write_blob(w, &data)?;\n    }\n    Ok(())"),
     dict(id="C01-dump-error-swallowed", prop="C01", file=DMPF, old="        write_blob(w, &data)?;\n    }\n    Ok(())", new="        _ = write_blob(w, &data);\n    }\n    Ok(())"),
 ]
+
+INIF = "crates/core/src/commands/init.rs"
+MUTATIONS += [
+    dict(id="C18-init-creates-before-validating", prop="C18", file=INIF, old="    config_opts.apply(&mut config)?;\n\n    let (key, key_id) = init_with_config(repo, credentials, key_opts, &config)?;", new="    let (key, key_id) = init_with_config(repo, credentials, key_opts, &config)?;\n    config_opts.apply(&mut config)?;\n"),
+    dict(id="C18-init-ignores-refusal", prop="C18", file=INIF, old="    config_opts.apply(&mut config)?;\n\n    let (key, key_id)", new="    _ = config_opts.apply(&mut config);\n\n    let (key, key_id)"),
+]
